@@ -42,7 +42,7 @@ def build(u):
          ensures=[C('C02.wlabels.add_label.exact', 'final(self).labels@ == old(self).labels@.insert(label, opcode_pos) && final(self).index_to_offset@ == old(self).index_to_offset@')])
     u.fn(L, 'Labels::get', requires=[KM], ret='r', canary=True,
          ensures=[C('C02.wlabels.get.exact', 'r == (if self.labels@.contains_key(*target) { Some(self.labels@[*target]) } else { None::<u16> })')])
-    u.fn(L, 'Labels::try_get', requires=[KM], ret='res', ctx_ok_or=[r'self\.get\(target\)'],
+    u.fn(L, 'Labels::try_get', requires=[KM], ret='res',
          ensures=[C('C02.wlabels.try_get.ok-iff-known', 'res.is_ok() <==> self.labels@.contains_key(*target)'),
                   C('C02.wlabels.try_get.exact', 'res matches Ok(o) ==> o == self.labels@[*target]')])
     # LabelRange has crate-private fields and is only built by the reader (start_pc, start_pc + length): start <= end.
@@ -66,7 +66,7 @@ def build(u):
                   C('C02.align.prefix-kept', 'final(writer)@.subrange(0, old(writer)@.len() as int) == old(writer)@'),
                   C('C02.align.zero-padding', 'forall|i: int| old(writer)@.len() <= i < final(writer)@.len() ==> final(writer)@[i] == 0u8')])
     pre = [KM, 'old(w)@.len() == opcode_pos as int']
-    u.fn(W, 'if_helper', ret='res', requires=pre, canary=True, ctx_ok_or=[r'opcode_pos\.checked_add\(1 \+ 2\)'],
+    u.fn(W, 'if_helper', ret='res', requires=pre, canary=True,
          ensures=[
              C('C02.if.resolved-narrow-bytes', f'{RESOLVED} && {FITS} ==> res.is_ok() && final(w)@ == old(w)@ + seq![opcode] + be_i16({BR} as i16) && {UNCHANGED}'),
              C('C02.if.resolved-trampoline-bytes', f'{RESOLVED} && !{FITS} && res.is_ok() ==> final(w)@ == old(w)@ + seq![opposite_opcode] + be_i16(8) + seq![0xc8u8] + be_i32(({BR} - 3) as i32) && {UNCHANGED}'),
